@@ -341,3 +341,49 @@ fn split_out(s: &str) -> Vec<String> {
     // record the whole text as ONE piece when non-empty; Trace_Source compares the concatenation (see Flat)
     if s.is_empty() { vec![] } else { vec![s.to_string()] }
 }
+
+// ------------------------------------------------------------------ drift: the design's code skeleton vs the real compiler's
+fn skeleton(listing: &[String], base: usize) -> Vec<String> {
+    listing.iter().map(|l| {
+        let mut it = l.splitn(2, ' ');
+        let k = it.next().unwrap_or("");
+        let a = it.next().unwrap_or("");
+        match k {
+            "jump" | "jumpifnot" | "jumpif" | "caseof" | "do" | "loop" | "break" | "call" => {
+                let n: i64 = a.parse().unwrap_or(-1);
+                format!("{} {}", k, n - base as i64)
+            }
+            "ret" => "ret".to_string(),
+            _ => "other".to_string(),
+        }
+    }).collect()
+}
+
+/// xv code-drift <cases> <drifts>: compile each generated program and compare the control-flow skeleton of the code
+/// (jumps, loops, calls, returns with their absolute targets; everything else is "other") with the one Xeh.tla compiled.
+pub fn cmd_code_drift(args: &[String]) -> i32 {
+    let cases = read_lines(&args[0]);
+    let mut out = String::new();
+    let mut compared = 0usize;
+    let mut drifts = 0usize;
+    for c in &cases {
+        let want: Vec<String> = match c["code"].as_array() { Some(a) => a.iter().map(|x| x.as_str().unwrap_or("").to_string()).collect(), None => continue };
+        if want.len() == 1 && want[0] == "uncompiled" { continue; }
+        let src: String = c["src"].as_array().map(|a| a.iter().map(|x| x.as_str().unwrap_or("")).collect::<Vec<_>>().join(" ")).unwrap_or_default();
+        let mut xs = fresh();
+        let base = xs.verif_dump().code_len;
+        if !matches!(guarded(|| xs.compile(&src)), Outcome::Done(Ok(()))) { continue; }
+        let got = skeleton(&xs.verif_code()[base..], base);
+        compared += 1;
+        if got != want {
+            drifts += 1;
+            if drifts <= 50 {
+                out.push_str(&json!({"src": src, "design": want, "compiler": got}).to_string());
+                out.push('\n');
+            }
+        }
+    }
+    std::fs::write(&args[1], out).unwrap();
+    println!("{}", json!({"compared": compared, "drifts": drifts}));
+    0
+}
